@@ -212,6 +212,8 @@ func c12SchedScenarios() []c12Sched {
 		{name: "insertkey-a||deletekey-a;insertkey-a", seed: []string{"a"}, threads: [][]keyCall{{{"insert", "a"}}, {{"delete", "a"}, {"insert", "a"}}}},
 		{name: "deletekey-a||deletekey-a||querykey-a", seed: []string{"a"}, threads: [][]keyCall{{{"delete", "a"}}, {{"delete", "a"}}, {{"query", "a"}}}},
 		{name: "insertkey-a||insertkey-b||querykey-a", threads: [][]keyCall{{{"insert", "a"}}, {{"insert", "b"}}, {{"query", "a"}}}},
+		// an InsertKey whose callback fails (it rolls back) beside two inserts of OTHER keys
+		{name: "failing-insertkey-a||insertkey-b||insertkey-c", threads: [][]keyCall{{{"insertfail", "a"}}, {{"insert", "b"}}, {{"insert", "c"}}}},
 	}
 }
 
@@ -234,6 +236,8 @@ func (sc c12Sched) instance() *eng.SchedInstance {
 				switch c.op {
 				case "insert":
 					err = w.C.InsertKey(c.key, func(r column.Row) error { r.SetInt("v", 10+ti); return nil })
+				case "insertfail":
+					err = w.C.InsertKey(c.key, func(r column.Row) error { r.SetInt("v", 66); return fmt.Errorf("verif: callback gives up") })
 				case "upsert":
 					err = w.C.UpsertKey(c.key, func(r column.Row) error { r.MergeInt("v", 1); return nil })
 				case "delete":
@@ -264,7 +268,7 @@ func (sc c12Sched) instance() *eng.SchedInstance {
 				})
 			})
 			final := map[string]bool{}
-			for _, k := range []string{"a", "b"} {
+			for _, k := range []string{"a", "b", "c"} {
 				if len(rowsOf[k]) > 0 {
 					final[k] = true
 				}
@@ -285,7 +289,7 @@ func (sc c12Sched) instance() *eng.SchedInstance {
 				vs = append(vs, eng.Violation{Assert: "key/keyless-row", Witness: "a live row without a key" + tag,
 					Detail: fmt.Sprintf("rows %v are live and hold no key; history: %s", rowsOf["<none>"], strings.Join(hist, " "))})
 			}
-			for _, k := range []string{"a", "b"} {
+			for _, k := range []string{"a", "b", "c"} {
 				var got uint32
 				var gotKey string
 				err := w.C.QueryKey(k, func(r column.Row) error { got = r.Index(); gotKey, _ = r.Key(); return nil })
@@ -317,7 +321,7 @@ func linearizable(events []keyEvent, seed []string, final map[string]bool) bool 
 	var rec func(done int) bool
 	rec = func(done int) bool {
 		if done == n {
-			for _, k := range []string{"a", "b"} {
+			for _, k := range []string{"a", "b", "c"} {
 				if state[k] != final[k] {
 					return false
 				}
@@ -347,6 +351,8 @@ func linearizable(events []keyEvent, seed []string, final map[string]bool) bool 
 				if !had {
 					state[e.call.key] = true
 				}
+			case "insertfail":
+				fail = true // fails either way: the key exists, or the callback gives up
 			case "upsert":
 				state[e.call.key] = true
 			case "delete":
